@@ -284,6 +284,102 @@ func (ms *mgrSess) genAssign(r *Rng) string {
 	}
 }
 
+// after: bookkeeping and comparisons after one request (response class and full manager state against the model,
+// refused requests must leave the state unchanged, graph invariants)
+func (ms *mgrSess) after(c *Ctx, op string, resp Resp, createdKey string, before string) (refused bool) {
+	desc := op
+	// which uuid did the server answer with?
+	implResp := "err"
+	if resp.Code == 200 {
+		implResp = "ok"
+		if createdKey != "" {
+			var m map[string]string
+			json.Unmarshal(resp.Body, &m)
+			ms.record(m[createdKey])
+		}
+	} else if resp.Code == 404 && strings.Contains(string(resp.Body), "page not found") {
+		implResp = "err" // unroutable uuid (empty): refused
+	}
+	ms.hist = append(ms.hist, fmt.Sprintf("%s -> %s", humanOp(op), resp.String()))
+	model := c.Model.Ask(op)
+	c.Cmp("repo manager response", desc, implResp, strings.SplitN(model, " ", 2)[0])
+	after := ms.implDump()
+	mdump := strings.TrimPrefix(c.Model.Ask("mgr.dump"), "ok ")
+	c.Cmp("repo manager state (datastore.VerifManagerDump)", desc+"\nhistory:\n  "+strings.Join(ms.hist, "\n  "), after, mdump)
+	if implResp == "err" {
+		refused = true
+		if before != after {
+			sig := "C07 refused-request-changed-state " + strings.SplitN(op, " ", 2)[0]
+			c.Report("O", sig, "a request answered with an error changed the graph, branch heads or identifier maps",
+				"request: "+humanOp(op)+" -> "+resp.String()+"\nhistory:\n  "+strings.Join(ms.hist, "\n  ")+"\nbefore:\n  "+strings.ReplaceAll(before, "|", "\n  ")+"\nafter:\n  "+strings.ReplaceAll(after, "|", "\n  "))
+		}
+	}
+	ms.checkInv(after, humanOp(op))
+	return refused
+}
+
+// c07Directed: request sequences that random generation reaches only by luck
+func c07Directed(c *Ctx) {
+	type step struct {
+		kind, node, arg string // kind: commit | newversion | branch | merge ; node: name of the node (r0 = root, cN = N-th created)
+	}
+	scenarios := [][]step{
+		// a branch name must stay taken after its head got a child on another branch
+		{{"commit", "r0", ""}, {"branch", "r0", "feature"}, {"commit", "c1", ""}, {"branch", "c1", "other"}, {"branch", "r0", "feature"}, {"branch", "c1", "feature"}},
+		// ... and after its head was merged away
+		{{"commit", "r0", ""}, {"branch", "r0", "feature"}, {"newversion", "r0", ""}, {"commit", "c1", ""}, {"commit", "c2", ""}, {"merge", "c1,c2", ""}, {"branch", "r0", "feature"}},
+		// master: one child per branch, also after the child was extended
+		{{"commit", "r0", ""}, {"newversion", "r0", ""}, {"commit", "c1", ""}, {"newversion", "c1", ""}, {"newversion", "r0", ""}, {"branch", "r0", ""}},
+	}
+	for _, sc := range scenarios {
+		OpenServer()
+		ms := &mgrSess{c: c, names: map[string]string{}, real: map[string]string{}}
+		c.Model.Ask("mgr.reset")
+		before := ms.implDump()
+		resp := PostJSON("repos", map[string]string{"alias": "a", "description": "d"})
+		ms.after(c, "mgr.newrepo none", resp, "root", before)
+		name := func(n string) string { // r0 / cN -> model name of the node
+			if len(ms.known) == 0 {
+				return ""
+			}
+			if n == "r0" {
+				return ms.known[0]
+			}
+			var k int
+			fmt.Sscanf(n, "c%d", &k)
+			if k < len(ms.known) {
+				return ms.known[k]
+			}
+			return ms.known[len(ms.known)-1]
+		}
+		for _, st := range sc {
+			before := ms.implDump()
+			switch st.kind {
+			case "commit":
+				u := name(st.node)
+				ms.after(c, "mgr.commit "+hs(u), PostJSON("node/"+ms.realOf(u)+"/commit", map[string]string{"note": "n"}), "", before)
+			case "newversion":
+				u := name(st.node)
+				ms.after(c, "mgr.newversion "+hs(u)+" none", PostJSON("node/"+ms.realOf(u)+"/newversion", map[string]string{"note": "n"}), "child", before)
+			case "branch":
+				u := name(st.node)
+				ms.after(c, "mgr.branch "+hs(u)+" "+hs(st.arg)+" none", PostJSON("node/"+ms.realOf(u)+"/branch", map[string]string{"note": "n", "branch": st.arg}), "child", before)
+			case "merge":
+				var real, hp []string
+				for _, n := range strings.Split(st.node, ",") {
+					u := name(n)
+					real = append(real, ms.realOf(u))
+					hp = append(hp, hs(u))
+				}
+				ms.after(c, "mgr.merge "+strings.Join(hp, ","), PostJSON("repo/"+real[0]+"/merge", map[string]interface{}{"mergeType": "conflict-free", "parents": real, "note": "m"}), "child", before)
+			}
+			c.Count("directed." + st.kind)
+		}
+		c.Eval("directed "+strings.Join(ms.hist, ";"), true)
+		CloseServer()
+	}
+}
+
 func runC07(c *Ctx) {
 	c.Rule = "random sequences of repo-level requests through HTTP (new repo, commit, newversion, branch, tag, merge with 2-4 parents) and datastore.DeleteRepo, with fresh / caller-assigned / duplicate / malformed UUIDs and branch names, committed / uncommitted / unknown / repeated / foreign-repo parents; after every request the manager's state dump is compared with the Lean model (X) and the graph invariants are evaluated on it (O); a refused request must leave the dump unchanged. non-trivial = sequence contains a refused request or a merge; distinct by request sequence"
 	nseq, maxLen := 150, 22
@@ -291,6 +387,7 @@ func runC07(c *Ctx) {
 		nseq, maxLen = 2500, 30
 	}
 	r := c.Rng
+	c07Directed(c)
 	for s := 0; s < nseq; s++ {
 		OpenServer()
 		ms := &mgrSess{c: c, names: map[string]string{}, real: map[string]string{}}
@@ -299,7 +396,7 @@ func runC07(c *Ctx) {
 		refused, merges := 0, 0
 		for i := 0; i < n; i++ {
 			before := ms.implDump()
-			var op, desc string
+			var op string
 			var resp Resp
 			createdKey := ""
 			switch k := r.Intn(20); {
@@ -412,34 +509,9 @@ func runC07(c *Ctx) {
 				}
 				c.Count("req.deleterepo")
 			}
-			desc = op
-			// which uuid did the server answer with?
-			implResp := "err"
-			if resp.Code == 200 {
-				implResp = "ok"
-				if createdKey != "" {
-					var m map[string]string
-					json.Unmarshal(resp.Body, &m)
-					ms.record(m[createdKey])
-				}
-			} else if resp.Code == 404 && strings.Contains(string(resp.Body), "page not found") {
-				implResp = "err" // unroutable uuid (empty): refused
-			}
-			ms.hist = append(ms.hist, fmt.Sprintf("%s -> %s", humanOp(op), resp.String()))
-			model := c.Model.Ask(op)
-			c.Cmp("repo manager response", desc, implResp, strings.SplitN(model, " ", 2)[0])
-			after := ms.implDump()
-			mdump := strings.TrimPrefix(c.Model.Ask("mgr.dump"), "ok ")
-			c.Cmp("repo manager state (datastore.VerifManagerDump)", desc+"\nhistory:\n  "+strings.Join(ms.hist, "\n  "), after, mdump)
-			if implResp == "err" {
+			if ms.after(c, op, resp, createdKey, before) {
 				refused++
-				if before != after {
-					sig := "C07 refused-request-changed-state " + strings.SplitN(op, " ", 2)[0]
-					c.Report("O", sig, "a request answered with an error changed the graph, branch heads or identifier maps",
-						"request: "+humanOp(op)+" -> "+resp.String()+"\nhistory:\n  "+strings.Join(ms.hist, "\n  ")+"\nbefore:\n  "+strings.ReplaceAll(before, "|", "\n  ")+"\nafter:\n  "+strings.ReplaceAll(after, "|", "\n  "))
-				}
 			}
-			ms.checkInv(after, humanOp(op))
 		}
 		c.Eval(strings.Join(ms.hist, ";"), refused > 0 || merges > 0)
 		CloseServer()
